@@ -74,6 +74,44 @@ theorem C19_host_refused (hp host port : Str) (hs : splitHostPort hp = some (hos
   · rfl
   · rename_i hc; simp [hc] at hne
 
+/-- the full statement: every Host whose host part is not `localhost` and is not accepted
+    by the ParseIP model is refused — and `checkLocal` says ok for nothing else -/
+theorem C19_host_refused_full (hp host port : Str) (hs : splitHostPort hp = some (host, port)) :
+    (host ≠ localhost ∧ parseIP host = false → checkLocal hp = .forbidden) ∧
+    (checkLocal hp = .ok ↔ host = localhost ∨ parseIP host = true) := by
+  unfold checkLocal
+  rw [hs]
+  simp only
+  by_cases hl : host = localhost
+  · simp [hl]
+  · cases hpi : parseIP host <;> simp [hl]
+
+/-- an IP literal is made of hex digits, ':' and '.' only: a name containing any other byte
+    — e.g. any ASCII letter g–z / G–Z, a hyphen, an underscore — is never an IP literal -/
+theorem C19_dns_name_not_ip (s : Str) (c : UInt8) (hc : c ∈ s)
+    (hout : isHexDigit c = false ∧ c ≠ 58 ∧ c ≠ 46) : parseIP s = false := by
+  cases h : parseIP s
+  · rfl
+  · have := parseIP_chars s h c hc
+    unfold ipChar at this
+    simp [hout.1, hout.2.1, hout.2.2] at this
+
+/-- in particular: a byte in g–z or G–Z anywhere in the host part (and the host part is not
+    `localhost`) means refusal, brackets or not -/
+theorem C19_host_with_letter_refused (hp host port : Str) (hs : splitHostPort hp = some (host, port))
+    (hl : host ≠ localhost) (c : UInt8) (hc : c ∈ host)
+    (hletter : (103 ≤ c ∧ c ≤ 122) ∨ (71 ≤ c ∧ c ≤ 90)) : checkLocal hp = .forbidden := by
+  apply (C19_host_refused_full hp host port hs).1
+  refine ⟨hl, C19_dns_name_not_ip host c hc ?_⟩
+  have h1 : isHexDigit c = false := by
+    unfold isHexDigit
+    rcases hletter with ⟨a, b⟩ | ⟨a, b⟩ <;>
+      (simp only [UInt8.le_iff_toNat_le, UInt8.reduceToNat] at a b
+       simp only [Bool.or_eq_false_iff, Bool.and_eq_false_iff, decide_eq_false_iff_not,
+         UInt8.le_iff_toNat_le, UInt8.reduceToNat]
+       omega)
+  refine ⟨h1, ?_, ?_⟩ <;> (intro e; subst e; rcases hletter with ⟨a, b⟩ | ⟨a, b⟩ <;> revert a b <;> decide)
+
 /-- a Host header without a usable `host:port` shape never reaches a handler body (400) -/
 theorem C19_unsplittable_refused (hp : Str) (hs : splitHostPort hp = none) :
     checkLocal hp = .badRequest := by
@@ -123,6 +161,23 @@ theorem C19_sites_escaped : ∀ s ∈ Gen.httpSites, s.htmlSafe = true := by dec
 
 /-- the same statement as a list of counter-examples (file:line, expression): empty -/
 theorem C19_no_raw_html_argument : rawHtmlArgs Gen.httpSites = [] := by decide
+
+/-- the quoting context of every argument of every HTML output site, derived from the
+    format strings: escaped / path-escaped strings only as element text or inside a
+    double-quoted attribute value; inside a tag, an unquoted value, a comment, a style or a
+    script block only constants, numbers and hex (in the script block also the request's own
+    Host) — no torrent-, tracker- or peer-controlled string, escaped or not; and the
+    extractor found a context for every argument -/
+theorem C19_sites_context_safe : ∀ s ∈ Gen.httpSites, s.contextSafe = true := by decide
+
+/-- the context analysis is not vacuous: the script block of `header`, attribute and tag
+    contexts are recognised where they are -/
+theorem C19_gen_sites_context_cover :
+    (∃ s ∈ Gen.httpSites, s.fn = "header" ∧ s.ctxs = [.script] ∧ s.args = [.request "r.Host"]) ∧
+    (∃ s ∈ Gen.httpSites, s.fn = "torrentFile" ∧ s.ctxs = [.attrDq, .attrDq, .text, .text, .text]) ∧
+    (∃ s ∈ Gen.httpSites, s.fn = "torrentEntry" ∧ s.ctxs = [.attrDq, .tag, .text] ∧
+        s.args = [.number, .const, .number]) ∧
+    (∀ s ∈ Gen.httpSites, s.isHtml = true → s.ctxs.length = s.args.length) := by decide
 
 /-- the table is not vacuous: each HTML-writing function contributes sites, and the sites
     printing the torrent name, the tracker URL/state, the web-seed URL and the link paths
